@@ -277,6 +277,9 @@ def build(work, tier):
     records = '\n'.join(['typedef struct QXmppOutgoingClient QXmppOutgoingClient;', r_soh, r_addr, r_send, r_sbeg, rd('model2.h'), r_see, r_conf, r_sock, r_starttls, r_c2s,
                          lstruct, ldefs, listener_setters(alts), r_priv, r_client, nas_defs, 'typedef struct QXmppClient QXmppClient;', r_pubpriv, r_pub,
                          '#define SOCK_STATE (self->d->stream->d->socket.m_socket->state)'])
+    # type invariant of the private object: its enum-typed members hold declared enumerators (generated from the class definition)
+    inv, _ = ctx.enum_field_invariant(path(OC), 'QXmppOutgoingClientPrivate', 'QXmppOutgoingClientPrivate')
+    records += '\n#define QXmppOutgoingClientPrivate_ENUMS_VALID(p) (' + inv.replace('%s', 'p') + ')\n'
 
     # ------------------------------------------------------------------ lowering of the real functions
     lowered, specs = {}, {}
